@@ -21,7 +21,7 @@ func init() { register(c08{}) }
 
 func (c08) ID() string { return "C08" }
 func (c08) Rule() string {
-	return "regions of 1..5 segments (lengths 1..6, gaps>=1, forward, complemented, and mixed-strand lists) taken from Location.Region() on a 40..60-residue sequence (unique complement-invariant ids, and random IUPAC letters so the complement is visible) x all five modifier forms x offsets in [-len-3,len+3]: exhaustive for 1..3 segments on a fixed layout, seeded for 1..5. Oracle (spliced-coordinate model M3): Resize(m).Locate(seq).Bytes() == window [lo,hi) of the outward-extended spliced sequence; zero-length results compared by Head() (either side accepted at a junction); windows leaving the sequence are skipped; AsModifier(m.String())==m. Locators assembled from known parts (modifier | point | range | complement(range) | selector by key and /label regexp, each optionally @modifier, and bare @modifier): the regions returned, compared through extraction in table order, must be the model's. non-trivial: >=2 segments or a non-zero offset; distinct: canonical case text. CLI layer: gts extract [-v] <locator> (one or two locators, with modifiers) of the real binary (--no-cache) on generated records and streams: one record per distinct located region with the residues the spliced-coordinate model gives. Selectors whose regular expression holds = (/function=aa=Sec, =v, k=v=w) on tables whose values hold = themselves. Regions whose last part turns around at the coordinate where the previous one ends (opposite strands meeting in one coordinate); a full-length record emitted by gts extract must be the extraction of the located region. Locators M1@M2 (a bare modifier resized again). Locators complement(point) and complement(complement(range)); feature keys 5'UTR / 3'UTR in tables and selectors."
+	return "regions of 1..5 segments (lengths 1..6, gaps>=1, forward, complemented, and mixed-strand lists) taken from Location.Region() on a 40..60-residue sequence (unique complement-invariant ids, and random IUPAC letters so the complement is visible) x all five modifier forms x offsets in [-len-3,len+3]: exhaustive for 1..3 segments on a fixed layout, seeded for 1..5. Oracle (spliced-coordinate model M3): Resize(m).Locate(seq).Bytes() == window [lo,hi) of the outward-extended spliced sequence; zero-length results compared by Head() (either side accepted at a junction); windows leaving the sequence are skipped; AsModifier(m.String())==m. Locators assembled from known parts (modifier | point | range | complement(range) | selector by key and /label regexp, each optionally @modifier, and bare @modifier): the regions returned, compared through extraction in table order, must be the model's. non-trivial: >=2 segments or a non-zero offset; distinct: canonical case text. CLI layer: gts extract [-v] <locator> (one or two locators, with modifiers) of the real binary (--no-cache) on generated records and streams: one record per distinct located region with the residues the spliced-coordinate model gives. Selectors whose regular expression holds = (/function=aa=Sec, =v, k=v=w) on tables whose values hold = themselves. Regions whose last part turns around at the coordinate where the previous one ends (opposite strands meeting in one coordinate); a full-length record emitted by gts extract must be the extraction of the located region. Locators M1@M2 (a bare modifier resized again). Locators complement(point) and complement(complement(range)); feature keys 5'UTR / 3'UTR in tables and selectors. Every locator is first applied to a longer sequence with the same table, then to the judged one."
 }
 func (c08) RequiredBuckets(tier string) []string {
 	out := []string{"segments:1", "segments:2", "segments:3", "segments:4", "segments:5", "strand:fwd", "strand:rev", "strand:mixed",
@@ -330,7 +330,9 @@ func (m c08) checkLocator(c *fw.Ctx, r *rand.Rand, tab []gts.Feature, seqB []byt
 			// a Locator is a reusable function: what it returns for a sequence
 			// must not depend on earlier invocations (the CLI applies one locator
 			// to every record of a stream). The second result is the one judged.
-			locate(host)
+			// (the earlier invocation is on a longer sequence with the same table:
+			// positions counted from the 3' end differ between the two.)
+			locate(gts.New(nil, ht, append(append([]byte(nil), seqB...), "nnnnnnnnn"...)))
 			rr = locate(host)
 		}
 	})
